@@ -348,6 +348,8 @@ func init() {
 		}
 		// ---- boundary corpus, components (fixed shapes first: notes/boundary-audit.md)
 		c18BoundaryComponents(c)
+		// ---- component programs (Generated/Pages.lean): the real components against their programs, byte for byte
+		c18ProgramTie(c)
 		// ---- (T) text-level functions
 		for _, s := range c18DataPool {
 			c.Tie("text "+hexs(s), hexs(c18Render(core.NewText(s))))
